@@ -247,6 +247,37 @@ func c05(c *eng.Ctx) {
 			}
 		}
 	}
+	// contents at the edges of the coefficient range: saturated two-colour lattices (coefficients beyond a band's nominal
+	// bit depth after the colour transform), flat images with isolated +-1 samples (the largest zero-bit-plane counts) and
+	// the same next to a full-scale sample (the largest pass counts), default and layered parameters
+	for gi, sz := range [][2]int{{8, 8}, {16, 16}, {17, 9}, {33, 20}, {32, 32}, {40, 33}} {
+		for _, f := range []fmtT{{8, 8, false}, {8, 7, true}, {16, 12, false}, {16, 16, false}, {16, 16, true}} {
+			for _, spp := range []int{1, 3} {
+				for _, nl := range []int{1, 2, 5} {
+					ks := []int{300, 301}
+					if spp == 3 {
+						// cube-corner pairs (blue, yellow), (red, cyan), (black, white), (green, magenta) x period-4 lattice and checker
+						for _, pair := range []int{4*7 + 3, 1*7 + 5, 0*7 + 6, 2*7 + 4} {
+							ks = append(ks, 1000+pair*6+1, 1000+pair*6+0)
+						}
+					} else {
+						ks = append(ks, 1000+0*6+1, 1000+1*6+0)
+					}
+					for _, k := range ks {
+						for mode := 0; mode < 2; mode++ {
+							a := c05Case{TS: gi % 2, Mode: 2, W: sz[0], H: sz[1], BA: f.ba, BS: f.bs, SPP: spp, Signed: f.signed, K: k, Frames: 1}
+							if mode == 1 {
+								a.Mode, a.Rate, a.RateLevels, a.NumLayers, a.Append, a.NumLevels, a.AllowMCT = 0, 20, ladders[1], 3, true, nl, true
+							} else if nl != 1 {
+								continue
+							}
+							jobs = append(jobs, a)
+						}
+					}
+				}
+			}
+		}
+	}
 	before = c.Evals()
 	done = c.Par(len(jobs), func(i int) {
 		a := jobs[i]
@@ -258,6 +289,6 @@ func c05(c *eng.Ctx) {
 	if !done {
 		c.Capped("geometry group cut by deadline")
 	}
-	c.Subspace("geometry-group", c.Evals()-before, done && c.Thorough(), fmt.Sprintf("%d sizes (all 1..8^2 plus widths {16,17,31,32,33,40} x heights {1,5,33,64,65,80}) x NumLevels {0,1,5,6} x progression 0..4 x AllowMCT x {default, Rate 5, NumLayers 3} x 6 formats x SPP {1,3}; nil parameters over all sizes/formats; quick keeps 1/5 by rotation", len(gs)))
+	c.Subspace("geometry-group", c.Evals()-before, done && c.Thorough(), fmt.Sprintf("%d sizes (all 1..8^2 plus widths {16,17,31,32,33,40} x heights {1,5,33,64,65,80}) x NumLevels {0,1,5,6} x progression 0..4 x AllowMCT x {default, Rate 5, NumLayers 3} x 6 formats x SPP {1,3}; nil parameters over all sizes/formats; quick keeps 1/5 by rotation; plus 6 sizes x 5 formats x SPP x levels {1,2,5} x edge contents (saturated two-colour lattices, flat with isolated +-1 samples, the same next to a full-scale sample) with default and layered parameters", len(gs)))
 	c.Sample(map[string]any{"TS": ".90", "Mode": "generic", "W": 9, "H": 65, "BA": 16, "BS": 12, "Rate": 5, "RateLevels": []int{1280, 640}, "NumLayers": 3, "PCRD": true, "Append": true})
 }
